@@ -159,10 +159,21 @@ def parseHeader (inp : Bytes) : Except Err Nat :=
 def lastN (n : Nat) (b : Bytes) : Bytes := b.drop (b.length - n)
 def butLastN (n : Nat) (b : Bytes) : Bytes := b.take (b.length - n)
 
+/-- The bytes `PackStreamReader` has read from the wire when it reaches the trailer check: with at least one
+object the first `recv` drained the wire, without objects exactly header + 20 bytes were read. -/
+def streamConsumed (count : Nat) (inp : Bytes) : Bytes :=
+  if count = 0 then inp.take (Gen.Ingest.packHeaderLen + Gen.Ingest.oidLen) else inp
+
+/-- `pack_sha != self.sha.digest()` ⇒ ChecksumMismatch — `_read` keeps the last 20 bytes read from the wire as
+the trailer and hashes everything before them.  Fewer than 20 bytes read in total: building the
+ChecksumMismatch fails in `sha_to_hex` (ValueError). -/
+def checkTrailer (H : Hash) (consumed : Bytes) (entries : List Entry) : Except Err (List Entry) :=
+  if Gen.Ingest.trailerVerified && lastN Gen.Ingest.oidLen consumed != H (butLastN Gen.Ingest.oidLen consumed) then
+    (if consumed.length < Gen.Ingest.oidLen then .error .format else .error .checksum)
+  else .ok entries
+
 /-- `PackStreamReader.read_objects` on a stream fed from a file-like object (`read_some = read`):
-header, `count` entries, then the trailer check.  `_read` keeps the last 20 bytes *read from the
-wire* as the trailer and hashes everything before them; with at least one object the first `recv`
-drained the wire, without objects exactly header + 20 bytes were read. -/
+header, `count` entries, then the trailer check. -/
 def parsePackStream (inflate : Inflate) (H : Hash) (inp : Bytes) : Except Err (List Entry) :=
   match parseHeader inp with
   | .error e => .error e
@@ -170,13 +181,7 @@ def parsePackStream (inflate : Inflate) (H : Hash) (inp : Bytes) : Except Err (L
     let body := inp.drop Gen.Ingest.packHeaderLen
     match parseEntries inflate inp.length (body.length + 1) count body with
     | .error e => .error e.toErr
-    | .ok (entries, _) =>
-      let consumed := if count = 0 then inp.take (Gen.Ingest.packHeaderLen + Gen.Ingest.oidLen) else inp
-      if Gen.Ingest.trailerVerified && lastN Gen.Ingest.oidLen consumed != H (butLastN Gen.Ingest.oidLen consumed)
-      then
-        -- fewer than 20 bytes read in total: building the ChecksumMismatch fails in `sha_to_hex` (ValueError)
-        if consumed.length < Gen.Ingest.oidLen then .error .format else .error .checksum
-      else .ok entries
+    | .ok (entries, _) => checkTrailer H (streamConsumed count inp) entries
 
 /-- `PackData(file)` + `iter_unpacked()`: minimum size header+20, header, `count` entries; the
 trailer is not looked at (add_pack().commit of the disk store rewrites it, the memory store calls
@@ -397,47 +402,52 @@ def statusErr : Status → Option Err
   | .unresolved _ => some .key
   | .failed e => some e
 
-/-- REF deltas of the pack whose base is not produced inside the pack but found in the store. -/
-def usesExt (ext : Bytes → Option (Nat × Bytes)) (entries : List Entry) (objs : List Obj) : Bool :=
-  entries.any fun e => match e.kind with
-    | .ref n _ => !(objs.any fun o => o.name == n) && (ext n).isSome
-    | _ => false
+/-- The external bases forward chaining used (`indexer.ext_refs()`): names REF deltas of the pack wait for that
+no object of the pack has and the store does have, in the sorted order of `_walk_ref_chains`. -/
+def extUsed (ext : Bytes → Option (Nat × Bytes)) (entries : List Entry) (objs : List Obj) : List (Nat × Bytes) :=
+  (refNames entries).filterMap fun n => if objs.any (fun o => o.name == n) then none else ext n
 
-/-- `extend_pack` without external bases: the hash of everything but the last 20 bytes of the FILE is
-written over the last 20 bytes of the file — whether or not those were a trailer. -/
-def extendPack (H : Hash) (file : Bytes) : Bytes :=
-  butLastN Gen.Ingest.oidLen file ++ H (butLastN Gen.Ingest.oidLen file)
+/-- `pack_object_header(type, size)`: the inverse of `objHeader`. -/
+def encObjHdrAux : Nat → Nat → Nat → Bytes
+  | 0, c, _ => [UInt8.ofNat c]
+  | f + 1, c, size => if size = 0 then [UInt8.ofNat c] else UInt8.ofNat (c + 128) :: encObjHdrAux f (size % 128) (size / 128)
+
+def encObjHdr (ty size : Nat) : Bytes := encObjHdrAux (size + 1) (ty * 16 + size % 16) (size / 16)
+
+def be32enc (n : Nat) : Bytes :=
+  [UInt8.ofNat (n / 16777216 % 256), UInt8.ofNat (n / 65536 % 256), UInt8.ofNat (n / 256 % 256), UInt8.ofNat (n % 256)]
+
+/-- `extend_pack`: (when bases are appended) the header is rewritten with version 2 and the new count; the hash of
+everything but the last 20 bytes of the FILE — whether or not those were a trailer — is computed; the missing
+bases are written from that position on (`deflate` = zlib.compress at the store's level), then the new hash. -/
+def extendPack (H : Hash) (deflate : Bytes → Bytes) (file : Bytes) (bases : List (Nat × Bytes)) : Bytes :=
+  let keep := file.length - Gen.Ingest.oidLen
+  let p := if bases.isEmpty then file.take keep
+    else Gen.Ingest.packMagic ++ be32enc 2 ++ be32enc (be32 ((file.drop 8).take 4) + bases.length) ++
+      (file.take keep).drop Gen.Ingest.packHeaderLen
+  let a := bases.flatMap fun b => encObjHdr b.1 b.2.length ++ deflate b.2
+  p ++ a ++ H (p ++ a)
 
 /-- `_complete_pack` for a temp file `file` whose entries resolved to `objs` (first pass, PackIndexer — no
-content parsing) with `rest` following the last entry: extend, rename into place, write the index, THEN
-validate the installed pack (framing again + PackInflater, which parses object contents) and roll back on
-failure.  As coded the handler first calls `final_pack.close()`; when the failure is a `zlib.error` raised
-inside the mapped pack this raises `BufferError` and the two `os.remove` calls are never reached: the
-corrupt pack STAYS installed and its index keeps listing `objs` (`.other` = that BufferError). -/
-def completePack (inflate : Inflate) (H : Hash) (valid : Obj → Bool) (s : Store) (file rest : Bytes)
-    (objs : List Obj) (extUsed : Bool) : Store × Option Err :=
-  let corrupt : Store × Option Err :=
-    if Gen.Ingest.rollbackCloseGuarded then (s, some .format) else (s ++ objs, some .other)
-  if extUsed then
-    -- the appended bases + new trailer start at `len - 20`; deflate is not modelled: the installed pack is
-    -- taken to be intact iff the entries end before that point (exact up to a 2^-8 coincidence per byte)
-    if rest.length ≥ Gen.Ingest.oidLen then
-      if objs.all valid then (s ++ objs, none) else (s, some .format)
-    else corrupt
-  else
-    match parsePackDataX inflate (extendPack H file) with
-    | .error .zlib => corrupt
-    | .error e => (s, some e.toErr)
-    | .ok (es, _) =>
-      match (resolveAll H valid s.lookup es).status with
-      | .done => (s ++ objs, none)
-      | st => (s, statusErr st)
+content parsing) using the external `bases`: extend, rename into place, write the index, THEN validate the
+installed pack (framing again + PackInflater, which parses object contents) and roll back on failure.
+As coded the handler first calls `final_pack.close()`; when the failure is a `zlib.error` raised inside the
+mapped pack this raises `BufferError` and the two `os.remove` calls are never reached: the corrupt pack STAYS
+installed and its index keeps listing `objs` (`.other` = that BufferError). -/
+def completePack (inflate : Inflate) (H : Hash) (deflate : Bytes → Bytes) (valid : Obj → Bool) (s : Store) (file : Bytes)
+    (objs : List Obj) (bases : List (Nat × Bytes)) : Store × Option Err :=
+  match parsePackDataX inflate (extendPack H deflate file bases) with
+  | .error .zlib => if Gen.Ingest.rollbackCloseGuarded then (s, some .format) else (s ++ objs, some .other)
+  | .error e => (s, some e.toErr)
+  | .ok (es, _) =>
+    match (resolveAll H valid s.lookup es).status with
+    | .done => (s ++ objs, none)
+    | st => (s, statusErr st)
 
-/-- `DiskObjectStore.add_thin_pack` / `add_pack().commit`: framing, (thin: trailer,) first-pass resolution;
-any failure there leaves the store as it was; then `_complete_pack`.
-(`add_pack().commit` does not verify the trailer: `extend_pack` recomputes and overwrites it.) -/
-def ingestDisk (inflate : Inflate) (H : Hash) (valid : Obj → Bool) (p : Path) (s : Store) (inp : Bytes) :
-    Store × Option Err :=
+/-- The temp file of a disk ingest and the result of the first pass, if it gets that far:
+`(file, objects, external bases used)`. -/
+def diskFirstPass (inflate : Inflate) (H : Hash) (p : Path) (s : Store) (inp : Bytes) :
+    Except Err (Option (Bytes × List Obj × List (Nat × Bytes))) :=
   let file : Except Err Bytes := match p with
     | .thin => match parsePackStream inflate H inp with
       | .error e => .error e
@@ -446,16 +456,26 @@ def ingestDisk (inflate : Inflate) (H : Hash) (valid : Obj → Bool) (p : Path) 
                       | _ => inp)
     | .addPack => .ok inp
   match file with
-  | .error e => (s, some e)
+  | .error e => .error e
   | .ok file =>
-    if file.isEmpty then (s, none) else                  -- `if f.tell() > 0` (add_pack); a thin stream is never empty here
+    if file.isEmpty then .ok none else                   -- `if f.tell() > 0` (add_pack); a thin stream is never empty here
     match parsePackDataX inflate file with
-    | .error e => (s, some e.toErr)
-    | .ok (entries, rest) =>
+    | .error e => .error e.toErr
+    | .ok (entries, _) =>
       let out := resolveAll H (fun _ => true) s.lookup entries
       match out.status with
-      | .done => completePack inflate H valid s file rest out.objs (usesExt s.lookup entries out.objs)
-      | st => (s, statusErr st)
+      | .done => .ok (some (file, out.objs, extUsed s.lookup entries out.objs))
+      | st => .error ((statusErr st).getD .other)
+
+/-- `DiskObjectStore.add_thin_pack` / `add_pack().commit`: framing, (thin: trailer,) first-pass resolution;
+any failure there leaves the store as it was; then `_complete_pack`.
+(`add_pack().commit` does not verify the trailer: `extend_pack` recomputes and overwrites it.) -/
+def ingestDisk (inflate : Inflate) (H : Hash) (deflate : Bytes → Bytes) (valid : Obj → Bool) (p : Path) (s : Store) (inp : Bytes) :
+    Store × Option Err :=
+  match diskFirstPass inflate H p s inp with
+  | .error e => (s, some e)
+  | .ok none => (s, none)
+  | .ok (some (file, objs, bases)) => completePack inflate H deflate valid s file objs bases
 
 /-- `MemoryObjectStore`: `add_thin_pack` = PackStreamCopier.verify into a spool file, then `commit()`;
 `commit()` = `PackData` + `check()` + `for obj in PackInflater(...): self.add_object(obj)` — objects are
